@@ -25,11 +25,13 @@ vars == <<l, st, viol>>
 Ev == Trace[l]
 IsEvent(k) == l <= Len(Trace) /\ Ev.ev = k /\ l' = l + 1
 
-Known == {"Reset", "Refuse", "Sweep", "Resolved", "Resolve", "Request", "Response", "Accept", "Seen",
+Known == {"Reset", "Refuse", "Sweep", "Resolved", "Resolve", "Request", "PreRequest", "Response", "Accept", "Seen",
           "SysConnect", "Done", "HarnessError", "ChildTimeout", "Panic"}
 
 NoPol == [enabled |-> FALSE, allow |-> {}, secrets |-> {}, timeout |-> 0, maxBytes |-> 0]
-Empty == [scen |-> "", mode |-> "", carve |-> {}, proc |-> NoPol, ceil |-> NoPol, urlKey |-> "",
+Empty == [pre |-> FALSE,   \* warm-up requests (to carved-out pairs) are being made on the same Service; the request
+                         \* under test has not started yet
+          scen |-> "", mode |-> "", carve |-> {}, proc |-> NoPol, ceil |-> NoPol, urlKey |-> "",
           dest |-> {}, redir |-> {}, bad |-> FALSE]
 
 (* slack for measured wall time of a call against the ceiling's timeout (scheduling, not policy) *)
@@ -101,7 +103,8 @@ Seen ==
        \* "refused for every resolved candidate": when no address the destination stands for (the resolver's
        \* answers for the URL's host or the literal; for a followed redirect, those of its target) is allowed,
        \* the request reaches nobody - neither directly nor through a proxy
-       Add(\E d \in st.dest \cup st.redir : ConnectAllowed(d[1], d[2], st.carve), "OnlyAllowedConnects",
+       Add(IF st.pre THEN ConnectAllowed(Ev.a, Ev.port, st.carve)   \* a warm-up request: its own target is carved out
+           ELSE \E d \in st.dest \cup st.redir : ConnectAllowed(d[1], d[2], st.carve), "OnlyAllowedConnects",
            "request delivered to " \o ToString(Ev.a) \o ":" \o ToString(Ev.port) \o " (" \o Ev.role
               \o ") although every candidate of its destination must be refused") \cup
        Add(Ev.auth = ""
@@ -121,13 +124,15 @@ Response ==
                 "response delivered although the ceiling is closed")
   /\ UNCHANGED st
 
-Plain == (IsEvent("Resolve") \/ IsEvent("Request") \/ IsEvent("Done")) /\ UNCHANGED <<st, viol>>
+Plain == (IsEvent("Resolve") \/ IsEvent("Done")) /\ UNCHANGED <<st, viol>>
+PreRequest == IsEvent("PreRequest") /\ st' = [st EXCEPT !.pre = TRUE] /\ UNCHANGED viol
+Request == IsEvent("Request") /\ st' = [st EXCEPT !.pre = FALSE] /\ UNCHANGED viol
 HarnessError == (IsEvent("HarnessError") \/ IsEvent("ChildTimeout") \/ IsEvent("Panic"))
                 /\ st' = [st EXCEPT !.bad = TRUE] /\ UNCHANGED viol
 Other == l <= Len(Trace) /\ Ev.ev \notin Known /\ l' = l + 1 /\ UNCHANGED <<st, viol>>
 
 Next == Reset \/ Refuse \/ Sweep \/ Resolved \/ Attempt("Accept") \/ Attempt("SysConnect") \/ Seen
-        \/ Response \/ Plain \/ HarnessError \/ Other
+        \/ Response \/ Plain \/ PreRequest \/ Request \/ HarnessError \/ Other
 
 Spec == Init /\ [][Next]_vars
 
